@@ -7,7 +7,7 @@ for sid in "$@"; do
   prop=${sid%%-*}
   cd $wt && git checkout -q -- . && git apply /verif/seeded/$sid/patch.diff || { echo "SEED $sid DOES NOT APPLY"; continue; }
   cd /verif
-  out=$(PYTHONPATH=$wt ./check $prop --tier $tier 2>&1); r=$?
+  out=$(WNMC_EVIDENCE_DIR=/dev/shm/wnmc_eval_evidence PYTHONPATH=$wt ./check $prop --tier $tier 2>&1); r=$?
   n=$(echo "$out" | grep -c "^VIOLATION")
   echo "SEED $sid check=$prop tier=$tier rc=$r violations=$n"
   echo "$out" | grep -A1 "^VIOLATION" | grep "key=" | cut -c1-200 | head -3
